@@ -4,6 +4,7 @@ import (
 	"fmt"
 	"go/constant"
 	"go/token"
+	"go/types"
 	"sort"
 	"strings"
 
@@ -149,7 +150,9 @@ func (t *TermBuilder) Term(v ssa.Value) string {
 		return fmt.Sprintf("%s#%d", t.Term(x.Tuple), x.Index)
 	case *ssa.BinOp:
 		if x.Op == token.ADD {
-			return concatTerm([]string{t.Term(x.X), t.Term(x.Y)})
+			if b, ok := x.Type().Underlying().(*types.Basic); ok && b.Info()&types.IsString != 0 {
+				return concatTerm([]string{t.Term(x.X), t.Term(x.Y)})
+			}
 		}
 		return "(" + t.Term(x.X) + x.Op.String() + t.Term(x.Y) + ")"
 	case *ssa.Field:
